@@ -553,21 +553,6 @@ class C07(verif.Spec):
         return any(l.startswith("ok 1 pts=") for l in impl_out)
 
 
-def load_known_with_own():
-    """lib/verif.py reads only the shared known_findings.json; merge this component's own file"""
-    k = _orig_load_known()
-    p = os.path.join(verif.VERIF, "known_findings.C07.json")
-    if os.path.exists(p):
-        own = json.load(open(p)).get("findings", [])
-        ids = {f.get("id") for f in k.get("findings", [])}
-        k.setdefault("findings", [])
-        k["findings"] += [f for f in own if f.get("id") not in ids]
-    return k
-
-
-_orig_load_known = verif.load_known
-verif.load_known = load_known_with_own
-
 if __name__ == "__main__":
     spec = C07()
     verif.run_check(spec)
